@@ -8,10 +8,10 @@ from sa.core import AnalysisError, Module, Repo, Report, call_name, parent, unpa
 from sa.fold import Folder, SetVal
 from sa.selftest import Edit, Variant
 
-from sa.texts import T as _T
+from sa.texts import T as _TX
 
-EXPLANATION = _T["C16"]["explanation"] + " Not decided: " + _T["C16"]["not_decided"] + "."
-ASSUMPTIONS = _T["C16"]["assumptions"]
+EXPLANATION = _TX["C16"]["explanation"] + " Not decided: " + _TX["C16"]["not_decided"] + "."
+ASSUMPTIONS = _TX["C16"]["assumptions"]
 P = "C16"
 
 FORBIDDEN_CALLS = {"id", "hash", "getpid", "urandom", "getenv", "uuid1", "uuid4", "time", "monotonic", "perf_counter", "now", "today",
